@@ -92,14 +92,14 @@ func c03Time(ctx context.Context) time.Time {
 }
 
 type c03Cfg struct {
-	layout  string // TextLayout | JSONLayout
-	sink    string // console | file | rolling | fanout | builtin
-	threads [][]c03Event
-	zone    *time.Location // the process's local zone (default UTC)
-	maxAge  string         // retention of the rolling appender in hours (default 24)
-	rootless bool          // the configuration has NO root logger (its logger serves a tag nobody uses) and is destroyed before the events: they go through the built-in console logger after a lifecycle
-	preExist bool          // rolling sinks: the file of the current interval exists already and holds a line an earlier life of the process was acknowledged for
-	level   string         // rolling-logger sinks: the logger's level; fanout: the level of both appender references ("" = not set)
+	layout   string // TextLayout | JSONLayout
+	sink     string // console | file | rolling | fanout | builtin
+	threads  [][]c03Event
+	zone     *time.Location // the process's local zone (default UTC)
+	maxAge   string         // retention of the rolling appender in hours (default 24)
+	rootless bool           // the configuration has NO root logger (its logger serves a tag nobody uses) and is destroyed before the events: they go through the built-in console logger after a lifecycle
+	preExist bool           // rolling sinks: the file of the current interval exists already and holds a line an earlier life of the process was acknowledged for
+	level    string         // rolling-logger sinks: the logger's level; fanout: the level of both appender references ("" = not set)
 }
 
 func (c c03Cfg) start() time.Time {
